@@ -116,6 +116,18 @@ fn one_case_global(prop: &str, g: &mut Gen, cx: &mut Ctx) -> bool {
                     cx.check(!months_skipped || r >= 3145930, || format!("reforming({r}) skips a whole month"));
                     let years_skipped = fg.year() > lj.year() && c.year_kind(lj.year() + 1) == YearKind::Skipped;
                     cx.check(!years_skipped || r >= 19582149, || format!("reforming({r}) skips a whole year"));
+                    // … and that holds for every year of the type, not only around the reformation
+                    for _ in 0..4 {
+                        let y = match g.rng.below(3) {
+                            0 => g.rng.range(I32_MIN, I32_MAX),
+                            1 => g.dict_near().clamp(I32_MIN, I32_MAX),
+                            _ => *g.rng.pick(&[I32_MIN, I32_MAX, 21_474_836, 21_474_837, -21_474_837, 42_949_673, -42_949_673]) + g.rng.range(-2, 2),
+                        }
+                        .clamp(I32_MIN, I32_MAX) as i32;
+                        let m = month(g.rng.range(1, 12) as u32);
+                        cx.check(c.month_shape(y, m).is_some() || r >= 3145930, || format!("reforming({r}) reports month {y}-{m:?} as wholly skipped"));
+                        cx.check(c.year_kind(y) != YearKind::Skipped || r >= 19582149, || format!("reforming({r}) reports year {y} as wholly skipped"));
+                    }
                 }
                 Err(ReformingError::InvalidReformation) => cx.check(r < crate::gen::R_MIN, || format!("reforming({r}) = InvalidReformation")),
                 Err(ReformingError::Arithmetic) => cx.check(r > crate::gen::R_MAX, || format!("reforming({r}) = Arithmetic")),
